@@ -503,14 +503,23 @@ def run(chk):
             for k in fails:
                 Recorder.log = []
                 raised = False
+                log_at_raise = None
                 try:
                     quiet(fn, k)
-                except (Boom, BoomBase):
+                except (Boom, BoomBase) as caught:
                     raised = True
+                    # the state of the progress object at the moment the caller receives the exception and while it still
+                    # holds it (a caller that logs or stores the exception keeps every frame of the traceback alive)
+                    log_at_raise = list(Recorder.log)
+                    del caught
                 except Exception as ex:
                     chk.disagree("bracket harness", f"{name}: unexpected {ex!r}")
                     continue
                 log = list(Recorder.log)
+                if log_at_raise is not None and log_at_raise.count("enter") != log_at_raise.count("exit"):
+                    chk.fail("exit-late:" + name, f"{name}: when the caller receives the exception of a failing user callable (evaluation {k}) the progress object has been "
+                             f"entered {log_at_raise.count('enter')}x and exited {log_at_raise.count('exit')}x: it is only closed when the exception object is dropped",
+                             {"kind": "bracket", "api": name, "fail_at_evaluation": k, "log_when_caught": log_at_raise, "log_later": log})
                 chk.search_cases += 1
                 chk.count("api_" + name)
                 info = {"kind": "bracket", "api": name, "fail_at_evaluation": k, "raised": raised, "log": log}
